@@ -96,7 +96,7 @@ def make_case(rng, tier, i, name, aligner=False):
     if name in mm.INTEGRATION:
         lead = (int(rng.integers(1, 4)),)
     elif aligner:
-        lead = (int(rng.integers(2, 5)),)
+        lead = (int(rng.choice([3, 5])),)       # the aligners insist on an odd number of frequencies
     else:
         lead = tuple(int(v) for v in rng.integers(1, 4, int(rng.integers(0, 3))))
     if name == 'cbmm':
@@ -108,6 +108,12 @@ def make_case(rng, tier, i, name, aligner=False):
     init = mm.make_init(rng, K, N, lead, style)
     opts = mm.sample_options(rng, name, K, N, lead, with_aligner=False)
     opts.pop('inline_permutation_alignment', None)
+    if name == 'cacgmm' and 'source_activity_mask' not in opts and rng.random() < 0.5:
+        m = rng.random((*lead, K, N)) < 0.75
+        m[..., 0, :] |= ~m.any(axis=-2)
+        if rng.random() < 0.5:
+            m[..., :, int(rng.integers(0, N))] = False       # an observation with every source inactive
+        opts['source_activity_mask'] = m
     if aligner:
         if name in mm.INTEGRATION:
             opts['inline_permutation_alignment'] = True
@@ -250,10 +256,10 @@ def coq_perm(rp, name, data, init, opts, mask, sigma, trA, trB, mA, pB, lead, K,
 def cases(rng, tier):
     q = tier == 'quick'
     out = []
-    for i in range(56 if q else 280):
+    for i in range(56 if q else 560):
         out.append(make_case(rng, tier, i, mm.MODELS[i % 7]))
     al = ['cacgmm', 'cwmm', 'cbmm', 'gcacgmm', 'vmfcacgmm']
-    for i in range(10 if q else 60):
+    for i in range(10 if q else 100):
         out.append(make_case(rng, tier, i, al[i % 5], aligner=True))
     return out
 
